@@ -9,9 +9,9 @@ Driver operations for the ImpExp model (C17; line protocol). Core Lean only.
   iuse                                     table := source store (a database that already holds headers)
   iimport <batch> <cp-height> <cp-hash> <records…>   start-up with prepared_db on an EMPTY table
   istart  <batch> <cp-height> <cp-hash> <records…>   start-up with prepared_db on the table left by the previous op
-                                           (`- -` = config.Checkpoints empty; the single record `!unreadable` = file
+                                           (`- -` = config.Checkpoints empty; the single record `!unreadable[:how]` = file
                                            missing / bad gzip; no record at all = empty file)
-        →  ok <n> <rows> <digest> | skipped <rows> <digest> | refused:<why> <rows> <digest> | panic <rows> <digest>
+        →  ok <rows> <digest> | skipped <rows> <digest> | refused:<why> <rows> <digest> | panic <rows> <digest>
            | outside <row index>
   idump                                    the table, rows as in `dump`
 -/
@@ -32,7 +32,9 @@ def recStr (r : Record) : String := ",".intercalate (r.map String.ofList)
 def parseRec (tok : String) : Record := (tok.splitOn ",").map String.toList
 
 def parseFile (toks : List String) : Option (List Record) :=
-  if toks = ["!unreadable"] then none else some (toks.map parseRec)
+  match toks with
+  | [t] => if t.startsWith "!unreadable" then none else some [parseRec t]
+  | _ => some (toks.map parseRec)
 
 def errName : RowErr → String
   | .fieldCount => "fieldcount"
@@ -59,7 +61,7 @@ def digest (t : Store String) : String := BHS.Sha256.toHex (BHS.Sha256.sha256 (d
 
 def resStr (t : Store String) : StartRes → String
   | .skipped => s!"skipped {t.length} {digest t}"
-  | .imported n => s!"ok {n} {t.length} {digest t}"
+  | .imported _ => s!"ok {t.length} {digest t}"
   | .refused e => s!"refused:{refusalName e} {t.length} {digest t}"
   | .panicked => s!"panic {t.length} {digest t}"
   | .outside i => s!"outside {i}"
@@ -87,6 +89,7 @@ def handle (st : S) : List String → Option (S × String)
   | "iimport" :: bs :: cph :: cphash :: toks => doStart st [] bs cph cphash toks
   | "istart" :: bs :: cph :: cphash :: toks => doStart st st.table bs cph cphash toks
   | ["idump"] => some (st, dumpStr st.table)
+  | ["icsv", _] => some (st, "ok")   -- CSV spelling (line ends, quotes, blank lines) is outside the model
   | _ => none
 
 end Driver.Ops.ImpExp
